@@ -555,13 +555,26 @@ def rule_h5(ctx: Ctx) -> None:
         return
     ctx.ok("C14-H5", dec.where, "one pin per letter, in word order, computed from the pins placed so far", lb, dec)
     if not (txt and txt[0] == f"{lst}.pop(0)"):
-        ctx.violation("C14-H5", dec, after[0] if after else dec.node, "the origin is not removed (exactly once, after all pins are placed) before the permutation is read off")
-        return
+        # other spellings of "drop the origin" are not judged here; a definite defect is: nothing is dropped at all, or another pin is
+        removals = [n for st in after for n in ast.walk(st) if (isinstance(n, ast.Call) and isinstance(n.func, ast.Attribute) and n.func.attr in ("pop", "remove", "popleft") and unparse(n.func.value) == lst)
+                    or (isinstance(n, ast.Subscript) and unparse(n.value) == lst and isinstance(n.slice, ast.Slice)) or isinstance(n, ast.Delete)]
+        if not removals:
+            ctx.violation("C14-H5", dec, after[0] if after else dec.node, "the origin is not removed (exactly once, after all pins are placed) before the permutation is read off")
+            return
+        bad_pop = [n for n in removals if isinstance(n, ast.Call) and n.func.attr == "pop" and (not n.args or unparse(n.args[0]) not in ("0",))]
+        if bad_pop:
+            ctx.violation("C14-H5", dec, after[0], f"`{unparse(bad_pop[0])}` removes a pin other than the origin (the origin is the first element)")
+            return
+        raise AnalysisError(f"{dec.where}: how the origin is dropped and the permutation read off (`{txt[0][:50]}` ...) is not recognised")
     if len(txt) >= 2 and txt[1] in (f"{lst}.sort()", f"{lst} = sorted({lst})"):
         ctx.ok("C14-H5", dec.where, "origin dropped, pins sorted by x", after[1], dec)
-    else:
+    elif not any((isinstance(n, ast.Call) and ((isinstance(n.func, ast.Attribute) and n.func.attr == "sort" and unparse(n.func.value) == lst)
+                                               or (call_name(n) == ("sorted",) and n.args and (unparse(n.args[0]) == lst or (isinstance(n.args[0], ast.Subscript) and unparse(n.args[0].value) == lst)))))
+                 for st in after for n in ast.walk(st)):
         ctx.violation("C14-H5", dec, after[1] if len(after) > 1 else dec.node, "pins are not sorted by x before the values are read off")
         return
+    else:
+        raise AnalysisError(f"{dec.where}: how the pins are sorted before the values are read off is not recognised")
     ys, perm = None, None
     for st in after[2:]:
         if isinstance(st, ast.Assign) and isinstance(st.value, ast.Call) and call_name(st.value) == ("sorted",):
@@ -578,7 +591,14 @@ def rule_h5(ctx: Ctx) -> None:
     if ys and perm and rets and unparse(rets[0].value) == f"Perm({perm})":
         ctx.ok("C14-H5", dec.where, "value of a pin = rank of its y among all y (bisect_left in the sorted y list): standardisation", rets[0], dec)
     else:
-        ctx.violation("C14-H5", dec, rets[0] if rets else dec.node, "the permutation is not read off as (rank of y among all y) in x order")
+        # the same template with the x coordinate taken for the values is a definite defect
+        for st in after[2:]:
+            if isinstance(st, ast.Assign) and isinstance(st.value, ast.Call) and call_name(st.value) == ("sorted",) and st.value.args and isinstance(st.value.args[0], ast.GeneratorExp):
+                ge = st.value.args[0]
+                if unparse(ge.generators[0].iter) == lst and unparse(ge.elt) == f"{unparse(ge.generators[0].target)}[0]":
+                    ctx.violation("C14-H5", dec, st, "the permutation is not read off as (rank of y among all y) in x order: the x coordinates are ranked")
+                    return
+        raise AnalysisError(f"{dec.where}: how the permutation is read off from the sorted pins is not recognised")
 
 
 def rule_t1(ctx: Ctx) -> None:
